@@ -22,8 +22,9 @@ KNOBS = {'n_min': 2, 'n_max': 4,
          'apps': {'n_apps': (1, 3), 'n_progs': (1, 4), 'seq_max': 2, 'startsecs': (0, 4), 'per_instance_diff': 0.1,
                   'managed_p': 0.7},
          'actions': ['start_application', 'stop_application', 'restart_application', 'start_process', 'stop_process',
-                     'restart_process', 'kill_process', 'kill_process', 'crash', 'dup', 'dup'],
-         'early_p': 0.5, 'n_actions': [1, 2, 3, 4, 6, 8]}
+                     'restart_process', 'kill_process', 'kill_process', 'crash', 'dup', 'dup', 'restart', 'restart',
+                     'burst', 'burst', 'burst'],
+         'early_p': 0.5, 'n_actions': [1, 2, 3, 4, 6, 8], 'fence': 'false'}
 
 
 def plan(tier, seed):
